@@ -1,4 +1,4 @@
-"""C10 — API results depend only on the arguments, not on earlier calls (sequential histories; thread schedules are outside this technique)."""
+"""C10 — API results depend only on the arguments, not on earlier calls (sequential histories, non-mutation, and context-bounded thread schedules)."""
 from __future__ import annotations
 
 import json
@@ -122,8 +122,13 @@ def make_history(spec):
     fresh = fresh_observables()
 
     def classify(history, probe, got, want):
-        names = history + [probe]
-        if any('asmodel' in n for n in names) and any(n in ('compile_g1', 'model_parse_start_item', 'compile_g1_asmodel', 'source_g1') for n in names) and 'F8' in known:
+        # F8, precisely: compile(G1, asmodel=True) installs model-building semantics on the cached model object for the key (name, hash, id(None));
+        # a later plain compile(G1) returns that same object and does not reset them.  Nothing else is tolerated.
+        if 'F8' not in known or 'compile_g1_asmodel' not in history:
+            return None
+        if probe == 'compile_g1' and got == fresh['compile_g1_asmodel']:
+            return 'F8'
+        if probe == 'model_parse_start_item' and got == [(['ok', ['Item', {'ast': w[1]}]] if w[0] == 'ok' else w) for w in want]:
             return 'F8'
         return None
 
@@ -205,6 +210,159 @@ def make_nomutation(spec):
     return body
 
 
+# ------------------------------------------------------------------------------------------------------------------------------------
+# thread schedules: two real threads parse with ONE compiled model; a deterministic scheduler (vt/sched.py) preempts the first thread at
+# its p-th switch point (call event, or call+line event, of code under the tatsu package), lets the second thread run to its end and then
+# resumes the first.  p is a symbolic selector: the solver enumerates every switch point of the range.
+
+THREAD_PAIRS = {
+    # name: (grammar, (text, settings) for thread 0, (text, settings) for thread 1)
+    'plain_ok_ok': ('G1', ('a b', {}), ('a', {})),
+    'plain_ok_fail': ('G1', ('a b', {}), ('a !', {})),
+    'semA_semB': ('G1', ('a b', {'semantics': 'A'}), ('b a', {'semantics': 'B'})),
+    'ignorecase_vs_plain': ('G2', ('A b', {'ignorecase': True}), ('A b', {})),
+    'nows_vs_plain': ('G2', ('a B', {'whitespace': ''}), ('a B', {})),
+    'start_parseinfo_vs_plain': ('G1', ('b', {'start': 'item', 'parseinfo': True}), ('a b', {})),
+    'asmodel_vs_plain': ('G1', ('a b', {'asmodel': True}), ('a b', {})),
+    'leftrec_ok_fail': ('G3', ('1+2+3', {}), ('1+', {})),
+    'noguard_vs_plain': ('G4', ('ab', {'nameguard': False}), ('ab', {})),
+    'generated_two_objects': ('G1gen', ('a b', {'semantics': 'A'}), ('a', {})),
+}
+G4 = "start: 'a' 'b' $ ;\n"
+
+
+_BLOBS: dict = {}
+
+
+def _thread_setup(pair, uniq, fast=False):
+    """-> (thunks, third) on a model compiled under a name never used before (so that nothing about it is warm); fast: a cold copy of
+    the compiled model obtained through pickle (taken before the model ever parsed) instead of another compilation"""
+    import pickle
+    import tatsu
+    gname, (t0, s0), (t1, s1) = THREAD_PAIRS[pair]
+    sems = {'A': SemA(), 'B': SemB()}
+
+    def settings(s):
+        return {k: (sems[v] if k == 'semantics' else v) for k, v in s.items()}
+    if gname == 'G1gen':
+        ns: dict = {}
+        if 'gensrc' not in _BLOBS:
+            _BLOBS['gensrc'] = compile(tatsu.to_python_sourcecode(G1, name='TH'), '<gen>', 'exec')
+        exec(_BLOBS['gensrc'], ns)  # noqa: S102
+        objs = [ns['THParser'](), ns['THParser']()]           # two parser objects of one generated class
+        parse = [objs[0].parse, objs[1].parse]
+        third = ns['THParser']().parse
+    else:
+        g = {'G1': G1, 'G2': G2, 'G3': G3, 'G4': G4}[gname]
+        if fast:
+            if gname not in _BLOBS:
+                _BLOBS[gname] = pickle.dumps(tatsu.compile(g, name=f'THB{gname}'))
+            model = pickle.loads(_BLOBS[gname])
+        else:
+            model = tatsu.compile(g, name=f'TH{uniq}')
+        parse = [model.parse, model.parse]
+        third = model.parse
+    return [lambda: parse[0](t0, **settings(s0)), lambda: parse[1](t1, **settings(s1))], (lambda: third(t0, **settings(s0)))
+
+
+def _thread_shape(r):
+    from tatsu.exceptions import ParseException
+
+    def shape(v):
+        if isinstance(v, dict):
+            return {k: shape(x) for k, x in sorted(v.items()) if k != 'parseinfo'} | ({'parseinfo': [v['parseinfo'].rule, v['parseinfo'].pos, v['parseinfo'].endpos]} if v.get('parseinfo') is not None else {})
+        if isinstance(v, (list, tuple)):
+            return [shape(x) for x in v]
+        if isinstance(v, (str, int, float)) or v is None:
+            return v
+        return [type(v).__name__, shape({k: x for k, x in vars(v).items() if not k.startswith('_') and k not in ('ctx', 'parseinfo')})]
+    if r is None:
+        return ['did-not-run']
+    kind, v = r
+    if kind == 'ok':
+        return ['ok', shape(v)]
+    if isinstance(v, ParseException):
+        return ['fail', type(v).__name__, getattr(v, 'pos', None)]
+    return ['exception', type(v).__name__, str(v)[:80]]
+
+
+def thread_event_counts(pair, granularity):
+    from ..sched import run_schedule
+    thunks, _ = _thread_setup(pair, 'cnt' + granularity)
+    _, counts = run_schedule(thunks, [], granularity=granularity)
+    return counts
+
+
+def make_threads(spec):
+    from ..sched import Deadlock, run_schedule
+    pair = spec['pair']
+    gran = spec.get('granularity', 'call')
+    who = spec['who']                    # the thread that is preempted (it also starts)
+    lo, hi = spec['lo'], spec['hi']
+    serial = [0]
+
+    def reference():
+        thunks, third = _thread_setup(pair, f'ref{who}_{lo}')
+        out = []
+        for th in thunks + [third]:
+            try:
+                out.append(('ok', th()))
+            except Exception as e:  # noqa: BLE001
+                out.append(('exc', e))
+        return [_thread_shape(r) for r in out]
+    ref = reference()
+
+    def native(p, fast=True):
+        serial[0] += 1
+        thunks, third = _thread_setup(pair, f'{who}_{lo}_{serial[0]}', fast=False)
+        try:
+            results, counts = run_schedule(thunks, [(who, p)], granularity=gran, first=who)
+        except Deadlock as e:
+            return False, 'deadlock', [p, str(e)]
+        got = [_thread_shape(r) for r in results]
+        try:
+            got.append(_thread_shape(('ok', third())))
+        except Exception as e:  # noqa: BLE001
+            got.append(_thread_shape(('exc', e)))
+        if got != ref:
+            return False, 'schedule-dependent', [p, [g for g, r in zip(got, ref) if g != r][:1], [r for g, r in zip(got, ref) if g != r][:1]]
+        return True, ('preempted' if 0 < p <= counts[who] else 'not-preempted'), None
+
+    cache = {}
+
+    def body(args):
+        (a,) = args
+        if _tracing():
+            l, h = lo, hi - 1
+            while l < h:                  # binary search: log2(range) solver decisions per path
+                mid = (l + h) // 2
+                if a <= mid:
+                    h = mid
+                else:
+                    l = mid + 1
+            from crosshair.tracers import NoTracing
+            with NoTracing():
+                cache.clear()
+                cache[l] = r = native(l)
+                return r
+        r = cache.get(a) or native(a)
+        import os
+        if r[0] and os.environ.get('VT_REPLAY'):
+            # replay in a fresh interpreter: the number of events before a given code location varies by a few units between processes
+            # (hash-order dependent traversals), so the neighbouring switch points are tried as well; any failing schedule is a demonstration
+            for d in range(1, 49):
+                for q in (a - d, a + d):
+                    if q >= 0:
+                        rr = native(q)
+                        if not rr[0]:
+                            return rr
+        return r
+
+    body.explain = lambda args: f'pair={pair} preempted thread={who} at switch point {args[0]} ({gran} events): ' + repr(native(args[0], fast=False)) + f'\nsequential reference: {ref!r}'
+    body.warm = [(lo,), (hi - 1,)]
+    return body
+
+
 def plan(tier, seed):
     obs = []
     k = 2 if tier == 'quick' else 3
@@ -230,20 +388,42 @@ def plan(tier, seed):
         for ln in ((2, 3) if tier == 'quick' else (2, 3, 4)):
             obs.append(Ob(name=f'N_nomutation_{gname}_{len(settings)}_L{ln}', factory='vt.props.c10:make_nomutation', spec={'grammar': gname, 'settings': settings, 'n': ln, 'program': gname},
                           params=[(f'c{i}', 0, UNI) for i in range(ln)], budget={2: 90, 3: 400, 4: 2000}[ln], group='nomutation'))
+    # thread schedules (one preemption window at every switch point)
+    tpairs = ['plain_ok_fail', 'semA_semB', 'ignorecase_vs_plain', 'asmodel_vs_plain'] if tier == 'quick' else list(THREAD_PAIRS)
+    chunk = 320
+    tcount = 0
+    for gran in (('call',) if tier == 'quick' else ('call', 'line')):
+        for pair in tpairs:
+            counts = thread_event_counts(pair, gran)
+            for who in (0, 1):
+                top = counts[who] + 9
+                if gran == 'line':
+                    top = min(top, 4 * chunk * 3)      # thorough, line granularity: the first 3840 line events of each thread (the rest is stated as outside)
+                for lo in range(0, top, chunk if gran == 'call' else 4 * chunk):
+                    hi = min(top, lo + (chunk if gran == 'call' else 4 * chunk))
+                    tcount += hi - lo
+                    obs.append(Ob(name=f'T_{gran}_{pair}_t{who}_{lo}', factory='vt.props.c10:make_threads', spec={'pair': pair, 'who': who, 'lo': lo, 'hi': hi, 'granularity': gran, 'program': 'threads:' + pair},
+                                  params=[('p', lo, hi)], budget=300 if gran == 'call' else 1500, group='threads', require_tags=(('preempted',) if lo + 40 < counts[who] else ())))
     return {
         'obligations': obs,
         'level': 'other',
-        'programs': len(POOL_NAMES),
+        'programs': len(POOL_NAMES) + len(tpairs),
         'explanation': f'Histories: a pool of {len(POOL_NAMES)} public-API calls (compile / parse / model.parse / generated parser / to_python_sourcecode over 3 grammars with varying name, '
                        f'asmodel, semantics object, ignorecase, nameguard, start rule; a failed parse followed by a good one on the same model). A history is {k} solver-chosen '
                        'call(s) followed by a solver-chosen probed call, all in one process sharing the semantics objects; the observable of the probed call (outcome, shape and '
                        'node class names on a battery of texts; a hash for generated source) must equal the observable of the same call made alone in a FRESH interpreter '
                        '(computed in child processes). Non-mutation: the model\'s pretty text, configuration fields, rule flags, keywords and directives are fingerprinted before '
-                       'and after a parse of n symbolic code points (symbolic execution, all texts).',
-        'functions_encoded': ['tatsu.api.api:compile/parse/to_python_sourcecode (compile cache)', 'tatsu.peg.base:Grammar.parse/new_parse_config/optimized', 'tatsu.contexts.core:find_cached_semantic_action',
+                       'and after a parse of n symbolic code points (symbolic execution, all texts). '
+                       f'Thread schedules: two real threads parse with ONE compiled model (cold: never parsed with before) under a deterministic scheduler; the first thread is preempted at its '
+                       f'p-th switch point (a call event{" or line event" if tier != "quick" else ""} of code under the tatsu package), the second thread runs to its end, the first resumes; p is a symbolic selector and the '
+                       f'solver enumerates every switch point ({tcount} schedules over {len(tpairs)} pairs of parses that differ in text, outcome, semantics object, ignorecase, whitespace, '
+                       'start rule, parseinfo, model building; plus two objects of one generated parser class). Both results and a third parse afterwards must equal the sequential results.',
+        'functions_encoded': ['tatsu.peg.base:Grammar.parse/optimized/_do_parse/newctx, tatsu.contexts.engine:ParserEngine.parse/bound and everything a parse calls, under two interleaved threads (vt/sched.py)',
+                              'tatsu.api.api:compile/parse/to_python_sourcecode (compile cache)', 'tatsu.peg.base:Grammar.parse/new_parse_config/optimized', 'tatsu.contexts.core:find_cached_semantic_action',
                               'tatsu.util.typetools:BoundCallable._BIND_CACHE', 'tatsu.objectmodel.synth:synthesize registry', 'tatsu.config:ParserConfig.override', 'tatsu.contexts.engine:ParserEngine.bound (config restore)'],
         'bounds': f'histories of up to {k} calls (quick: all of length 1, and of length 2 after the 6 state-leaving calls; thorough: all of length 3) over a pool of {len(POOL_NAMES)} calls x every probed call; non-mutation for 4 (grammar, settings) pairs and texts of 2..{3 if tier == "quick" else 4} code points',
-        'outside': 'THREAD SCHEDULES: CrossHair executes one thread and no packaged engine interleaves Python threads; the claim is restricted to sequential histories plus the '
-                   'non-mutation invariant (which is what makes sharing a compiled model between threads safe). Longer histories; other grammars.',
+        'outside': 'Thread schedules with more than one preemption window (context bound 1: [A prefix][B whole][A rest], both roles), preemption between two byte-codes of one line '
+                   '(switch points are call events in the quick tier, call and line events in the thorough tier), more than two threads, free-threaded builds; concurrent COMPILATION '
+                   '(tatsu.compile in two threads) is not scheduled. Longer histories; other grammars.',
         'assumptions': ['the fresh-interpreter observable is the oracle', 'the battery of 9 texts distinguishes the configurations of the pool'],
     }
